@@ -164,6 +164,31 @@ pub fn finish(
         samples.push(json!("no execution was run"));
     }
 
+    // conformance of the third-party models with the real crates (thorough tier, run by ./check)
+    let mut notes = extra.notes.clone();
+    let mut conform_json = Value::Null;
+    let mut traces_validated = execs;
+    if let Ok(pth) = std::env::var("VERIF_CONFORM") {
+        if !pth.is_empty() {
+            if let Some(c) = std::fs::read_to_string(&pth).ok().and_then(|t| serde_json::from_str::<Value>(&t).ok()) {
+                let n = c["channel_sequences_compared"].as_u64().unwrap_or(0) + c["store_runs_on_real_crates"].as_u64().unwrap_or(0);
+                traces_validated += n;
+                notes.push(format!(
+                    "model conformance: {} channel operation sequences (depth {}) agreed between crossbeam and verif_rt::chan; pool scripts agreed with rusty_pool; {} whole-store scenario runs on the real crates equal the schedule-independent records of the models",
+                    c["channel_sequences_compared"], c["channel_depth"], c["store_runs_on_real_crates"]
+                ));
+                conform_json = c;
+            }
+        }
+    }
+    if let Ok(scan) = std::env::var("VERIF_SOURCE_SCAN") {
+        if !scan.trim().is_empty() {
+            notes.push(format!("WARNING source scan: constructs the controlled scheduler does not intercept (per-task thread-locals, std primitives named by full path, statics) appear in /repo/src outside tests; they run unscheduled here: {}", scan.replace('\n', " | ")));
+        }
+    }
+    if rep.elision_redone > 0 {
+        notes.push(format!("{} scenario(s) were re-explored without lock elision because a second task locked an elided mutex", rep.elision_redone));
+    }
     let ev = json!({
         "property_id": prop,
         "tier": tier.s(),
@@ -172,7 +197,7 @@ pub fn finish(
         "coverage": {
             "states": nodes.max(1),
             "transitions": steps.max(1),
-            "traces_validated_against_impl": execs,
+            "traces_validated_against_impl": traces_validated,
             "evaluations": execs,
             "distinct_nontrivial": outcomes_nt + extra.distinct,
             "rule": "stateless preemption-bounded DFS over the real rs-store code on the controlled runtime: every schedule of each closed scenario program with at most b preemptions (b iterated 0..bound), plus the scenario's own data choices; states = distinct schedule-tree nodes (choice prefixes) visited; transitions = scheduling steps executed; an outcome is the hash of the harness-level event log + end state, non-trivial = seen in an execution with at least one scheduling choice; every explored trace is an execution of the implementation itself (no separate model of rs-store)",
@@ -183,7 +208,8 @@ pub fn finish(
             "caps_hit": rep.capped,
             "single_outcome_scenarios": single_outcome,
             "known_findings_seen": known_seen.iter().map(|k| json!({"id": k.0, "what": k.1, "executions": k.2})).collect::<Vec<_>>(),
-            "notes": extra.notes,
+            "notes": notes,
+            "model_conformance": conform_json,
         },
         "assumptions": [
             "third-party behaviour is modelled by verif_rt: bounded MPMC channel (crossbeam), thread pool (rusty_pool: a job starts when submitted, job panics contained), std Mutex (never poisoned) and threads; see DESIGN.md section 3",
@@ -209,7 +235,7 @@ pub fn finish(
         let short: String = c.chars().take(160).collect();
         println!("CAP (not exhaustive): {}", short);
     }
-    for n in &extra.notes {
+    for n in &notes {
         println!("note: {}", n);
     }
     if let Some(f) = fatal {
